@@ -7,8 +7,6 @@ import (
 	"sort"
 	"strings"
 
-	"github.com/golang/protobuf/proto"
-
 	"github.com/xuperchain/xupercore/bcs/ledger/xledger/state/xmodel"
 	"github.com/xuperchain/xupercore/kernel/contract"
 	"github.com/xuperchain/xupercore/kernel/contract/sandbox"
@@ -41,17 +39,29 @@ type stats struct {
 	scanRejected int
 	xferOK       int
 	xferRefused  int
-	panics       int
-	pruned       int // traces not executed: same calls up to a call that panicked on this backing
-	violating    int // traces with at least one finding
-	rsetEntries  int
-	wsetEntries  int
-	states       map[uint32]struct{}
-	outcomes     [5 * 32]bool // per call kind: error flag x number of keys yielded
+	// the Transfer dimension
+	xferBy                [3][2]int           // per payer: accepted, refused
+	xferByReader          int                 // refused by the utxo reader (positive amount): nothing may stay selected
+	xferMultiInput        int                 // accepted and covered by more than one output
+	xferExact             int                 // accepted without change
+	xferAfterRefuse       int                 // accepted after a transfer of this execution that the reader refused
+	progsRefuseThenOK     int                 // traces with such a transfer
+	utxoInputs            int                 // token inputs recorded
+	replayXfers           int                 // transfers re-run over the recorded token inputs
+	replayXferRefused     int                 // of which refused again
+	replayXferAfterRefuse int                 // accepted again after a refused one
+	xferSeqs              map[string]struct{} // distinct accept / refuse patterns of the transfers of a trace
+	panics                int
+	pruned                int // traces not executed: same calls up to a call that panicked on this backing
+	violating             int // traces with at least one finding
+	rsetEntries           int
+	wsetEntries           int
+	states                map[uint64]struct{}
+	outcomes              [5 * 32]bool // per call kind: error flag x number of keys yielded
 }
 
 func newStats() *stats {
-	return &stats{states: map[uint32]struct{}{}}
+	return &stats{states: map[uint64]struct{}{}, xferSeqs: map[string]struct{}{}}
 }
 
 func (s *stats) merge(o *stats) {
@@ -68,6 +78,22 @@ func (s *stats) merge(o *stats) {
 	s.scanRejected += o.scanRejected
 	s.xferOK += o.xferOK
 	s.xferRefused += o.xferRefused
+	for i := range s.xferBy {
+		s.xferBy[i][0] += o.xferBy[i][0]
+		s.xferBy[i][1] += o.xferBy[i][1]
+	}
+	s.xferByReader += o.xferByReader
+	s.xferMultiInput += o.xferMultiInput
+	s.xferExact += o.xferExact
+	s.xferAfterRefuse += o.xferAfterRefuse
+	s.progsRefuseThenOK += o.progsRefuseThenOK
+	s.utxoInputs += o.utxoInputs
+	s.replayXfers += o.replayXfers
+	s.replayXferRefused += o.replayXferRefused
+	s.replayXferAfterRefuse += o.replayXferAfterRefuse
+	for k := range o.xferSeqs {
+		s.xferSeqs[k] = struct{}{}
+	}
 	s.panics += o.panics
 	s.pruned += o.pruned
 	s.violating += o.violating
@@ -210,14 +236,24 @@ func (rf *ref) apply(o op, r opResult) {
 		}
 	case opXfer:
 		if !r.err {
-			rf.xfers = append(rf.xfers, int(o.amt))
+			k := payers[o.from].need(o.amt)
+			if k < 0 {
+				k = 0
+			}
+			if k > rf.avail[o.from] {
+				k = rf.avail[o.from]
+			}
+			rf.avail[o.from] -= k
+			rf.xfers = append(rf.xfers, xferRec{from: o.from, amt: o.amt, k: k})
+		} else if o.amt > 0 {
+			rf.refused = append(rf.refused, o.from)
 		}
 	}
 }
 
 // refBefore is the reference state before call i.
 func refBefore(b backing, prog []op, res []opResult, i int) *ref {
-	rf := &ref{b: b}
+	rf := newRef(b)
 	for j := 0; j < i; j++ {
 		rf.apply(prog[j], res[j])
 	}
@@ -271,13 +307,31 @@ func describeWSet(ws map[string]string) string {
 			sb.WriteString(" ")
 		}
 		if strings.HasPrefix(k, bktTransient+"/ContractUtxo.") {
-			fmt.Fprintf(&sb, "%s=<%d bytes>", k, len(ws[k]))
+			// rendered by owner and amount: which of the equal outputs of an owner
+			// the ledger picked (hence the encoded length) varies from run to run
+			fmt.Fprintf(&sb, "%s=%s", k, describeUtxoRecord(k, ws[k]))
 		} else {
 			fmt.Fprintf(&sb, "%s=%q", k, ws[k])
 		}
 	}
 	sb.WriteString("}")
 	return sb.String()
+}
+
+func describeUtxoRecord(id, v string) string {
+	switch id {
+	case bktTransient + "/" + utxoInKey:
+		var ins []*protos.TxInput
+		if xmodel.UnmsarshalMessages([]byte(v), &ins) == nil {
+			return "<inputs " + describeUtxoIns(ins) + ">"
+		}
+	case bktTransient + "/" + utxoOutKey:
+		var outs []*protos.TxOutput
+		if xmodel.UnmsarshalMessages([]byte(v), &outs) == nil {
+			return "<outputs " + describeUtxoOuts(outs) + ">"
+		}
+	}
+	return "<undecodable record>"
 }
 
 func wsetMap(ws []*kledger.PureData) (map[string]string, bool) {
@@ -293,21 +347,127 @@ func wsetMap(ws []*kledger.PureData) (map[string]string, bool) {
 	return m, dup
 }
 
+func addrName(a []byte) string {
+	if n, ok := world.AddrName[string(a)]; ok {
+		return n
+	}
+	return string(a)
+}
+
+func listUtxoOuts(outs []*protos.TxOutput) []string {
+	var l []string
+	for _, o := range outs {
+		l = append(l, fmt.Sprintf("%s:%s", addrName(o.GetToAddr()), new(big.Int).SetBytes(o.GetAmount())))
+	}
+	return l
+}
+
 func describeUtxoOuts(outs []*protos.TxOutput) string {
+	return "[" + strings.Join(listUtxoOuts(outs), " ") + "]"
+}
+
+// listUtxoIns renders owner:amount of every input (which of several equal
+// outputs of the owner the ledger picked is not an observable of the property).
+func listUtxoIns(ins []*protos.TxInput) []string {
+	var l []string
+	for _, in := range ins {
+		l = append(l, fmt.Sprintf("%s:%s", addrName(in.GetFromAddr()), new(big.Int).SetBytes(in.GetAmount())))
+	}
+	return l
+}
+
+func describeUtxoIns(ins []*protos.TxInput) string {
+	return "[" + strings.Join(listUtxoIns(ins), " ") + "]"
+}
+
+// sameInput / sameOutput compare every field of the messages (proto.Equal
+// costs a reflection walk per message and there are millions of them).
+func sameInput(a, b *protos.TxInput) bool {
+	return bytes.Equal(a.GetRefTxid(), b.GetRefTxid()) && a.GetRefOffset() == b.GetRefOffset() && bytes.Equal(a.GetFromAddr(), b.GetFromAddr()) &&
+		bytes.Equal(a.GetAmount(), b.GetAmount()) && a.GetFrozenHeight() == b.GetFrozenHeight() && bytes.Equal(a.XXX_unrecognized, b.XXX_unrecognized)
+}
+
+func sameOutput(a, b *protos.TxOutput) bool {
+	return bytes.Equal(a.GetAmount(), b.GetAmount()) && bytes.Equal(a.GetToAddr(), b.GetToAddr()) && a.GetFrozenHeight() == b.GetFrozenHeight() &&
+		bytes.Equal(a.XXX_unrecognized, b.XXX_unrecognized)
+}
+
+func sameInputs(a, b []*protos.TxInput) bool {
+	if len(a) != len(b) {
+		return false
+	}
+	for i := range a {
+		if !sameInput(a[i], b[i]) {
+			return false
+		}
+	}
+	return true
+}
+
+func sameOutputs(a, b []*protos.TxOutput) bool {
+	if len(a) != len(b) {
+		return false
+	}
+	for i := range a {
+		if !sameOutput(a[i], b[i]) {
+			return false
+		}
+	}
+	return true
+}
+
+// tok is owner and amount of a token input / output.
+type tok struct {
+	owner string
+	amt   int64
+}
+
+func amountOf(b []byte) int64 {
+	if len(b) > 7 {
+		return -1 // no amount of the model is that large
+	}
+	var x int64
+	for _, c := range b {
+		x = x<<8 | int64(c)
+	}
+	return x
+}
+
+func sameToks(a, b []tok) bool {
+	if len(a) != len(b) {
+		return false
+	}
+	for i := range a {
+		if a[i] != b[i] {
+			return false
+		}
+	}
+	return true
+}
+
+func describeToks(l []tok) string {
 	var sb strings.Builder
 	sb.WriteString("[")
-	for i, o := range outs {
+	for i, t := range l {
 		if i > 0 {
 			sb.WriteString(" ")
 		}
-		to := string(o.GetToAddr())
-		if n, ok := world.AddrName[to]; ok {
-			to = n
-		}
-		fmt.Fprintf(&sb, "%s:%s", to, new(big.Int).SetBytes(o.GetAmount()))
+		fmt.Fprintf(&sb, "%s:%d", addrName([]byte(t.owner)), t.amt)
 	}
 	sb.WriteString("]")
 	return sb.String()
+}
+
+// refusalContext names how a transfer relates to the transfers the utxo
+// reader refused before it in the same execution.
+func refusalContext(rs *ref, o op) string {
+	if len(rs.refused) == 0 {
+		return ""
+	}
+	if rs.refused[len(rs.refused)-1] == o.from {
+		return ".after_refused_transfer_of_same_payer"
+	}
+	return ".after_refused_transfer_of_other_payer"
 }
 
 // checkProgram runs prog on a fresh sandbox over the real XModel of bw,
@@ -342,7 +502,9 @@ func checkProgram(bw *bworld, prog []op, st *stats) (fs []finding, panicAt int) 
 	res := execProgram(sb, prog)
 	st.ops += len(res)
 
-	rf := &ref{b: bw.b}
+	rf := newRef(bw.b)
+	xferSeq := make([]byte, 0, 8)
+	refuseThenOK := false
 	for i, r := range res {
 		o := prog[i]
 		oc := int(o.kind)*32 + len(r.items)
@@ -425,15 +587,44 @@ func checkProgram(bw *bworld, prog []op, st *stats) (fs []finding, panicAt int) 
 			} else {
 				st.xferOK++
 			}
-			if o.amt == 0 && !r.err {
-				add("c10.transfer_of_zero_accepted", where(i), "error", "ok")
+			wantOK, k := rf.xferWant(o)
+			if r.err {
+				st.xferBy[o.from][1]++
+				xferSeq = append(xferSeq, 'a'+o.from)
+				if o.amt > 0 {
+					st.xferByReader++
+				}
+			} else {
+				st.xferBy[o.from][0]++
+				xferSeq = append(xferSeq, 'A'+o.from)
+				if k > 1 {
+					st.xferMultiInput++
+				}
+				if wantOK && k*payers[o.from].size == int(o.amt) {
+					st.xferExact++
+				}
+				if len(rf.refused) > 0 {
+					st.xferAfterRefuse++
+					refuseThenOK = true
+				}
 			}
-			if o.amt > 0 && r.err {
-				add("c10.transfer_refused", where(i)+": the sender owns unlocked outputs", "ok", "error")
+			switch {
+			case o.amt == 0 && !r.err:
+				add("c10.transfer_of_zero_accepted", where(i), "error", "ok")
+			case wantOK && r.err:
+				add("c10.transfer_refused"+refusalContext(rf, o), where(i)+fmt.Sprintf(": the sender owns %d unselected outputs of %d", rf.avail[o.from], payers[o.from].size), "ok", "error")
+			case !wantOK && !r.err:
+				add("c10.transfer_accepted_beyond_unselected_funds"+refusalContext(rf, o), where(i)+fmt.Sprintf(": the sender owns %d unselected outputs of %d", rf.avail[o.from], payers[o.from].size), "error", "ok")
 			}
 		}
 		rf.apply(o, r)
 		st.states[rf.packed()] = struct{}{}
+	}
+	if len(xferSeq) > 0 {
+		st.xferSeqs[string(xferSeq)] = struct{}{}
+	}
+	if refuseThenOK {
+		st.progsRefuseThenOK++
 	}
 
 	// ---- read / write sets ------------------------------------------------
@@ -564,31 +755,36 @@ func checkProgram(bw *bworld, prog []op, st *stats) (fs []finding, panicAt int) 
 	}
 
 	// ---- token part ---------------------------------------------------------
-	addrA, addrB := world.Addr("A"), world.Addr("B")
+	st.utxoInputs += len(urw.Rset)
 	sumIn, sumOut := sumAmounts(urw.Rset, urw.WSet)
 	if sumIn.Cmp(sumOut) != 0 {
 		add("c10.utxo_not_conserved", whole.s()+": token inputs and outputs of the sandbox differ", "inputs = outputs", fmt.Sprintf("inputs %s, outputs %s", sumIn, describeUtxoOuts(urw.WSet)))
 	}
+	wantIns, wantOuts := rf.wantUtxo()
+	gotIns := make([]tok, 0, len(urw.Rset))
 	for _, in := range urw.Rset {
-		if string(in.GetFromAddr()) != addrA {
-			add("c10.utxo_input_of_other_owner", whole.s()+": a selected input is not owned by the sender", "inputs of A", "input of "+string(in.GetFromAddr()))
-			break
-		}
+		gotIns = append(gotIns, tok{string(in.GetFromAddr()), amountOf(in.GetAmount())})
 	}
-	var toB []int
-	strange := false
+	gotOuts := make([]tok, 0, len(urw.WSet))
 	for _, o := range urw.WSet {
-		switch string(o.GetToAddr()) {
-		case addrB:
-			toB = append(toB, int(new(big.Int).SetBytes(o.GetAmount()).Int64()))
-		case addrA:
-		default:
-			strange = true
-		}
+		gotOuts = append(gotOuts, tok{string(o.GetToAddr()), amountOf(o.GetAmount())})
 	}
-	if strange || fmt.Sprint(toB) != fmt.Sprint(rf.xfers) {
-		add("c10.utxo_outputs_do_not_match_transfers", whole.s()+": token outputs are not the transfers of the program plus change",
-			fmt.Sprintf("to B %v, change to A", rf.xfers), describeUtxoOuts(urw.WSet))
+	if !sameToks(gotIns, wantIns) {
+		key := "c10.utxo_inputs_do_not_match_transfers"
+		if len(gotIns) == len(wantIns) {
+			for i := range gotIns {
+				if gotIns[i].owner != wantIns[i].owner {
+					key = "c10.utxo_input_of_other_owner"
+					break
+				}
+			}
+		}
+		add(key, whole.s()+": the recorded token inputs are not the outputs of the senders that cover the accepted transfers, in call order",
+			describeToks(wantIns), describeToks(gotIns))
+	}
+	if !sameToks(gotOuts, wantOuts) {
+		add("c10.utxo_outputs_do_not_match_transfers", whole.s()+": token outputs are not the accepted transfers of the program, each followed by its change",
+			describeToks(wantOuts), describeToks(gotOuts))
 	}
 	if len(rf.xfers) == 0 {
 		if hasIn || hasOut {
@@ -601,13 +797,7 @@ func checkProgram(bw *bworld, prog []op, st *stats) (fs []finding, panicAt int) 
 			var outs []*protos.TxOutput
 			e1 := xmodel.UnmsarshalMessages([]byte(utxoIn), &ins)
 			e2 := xmodel.UnmsarshalMessages([]byte(utxoOut), &outs)
-			okRec = e1 == nil && e2 == nil && len(ins) == len(urw.Rset) && len(outs) == len(urw.WSet)
-			for i := 0; okRec && i < len(ins); i++ {
-				okRec = proto.Equal(ins[i], urw.Rset[i])
-			}
-			for i := 0; okRec && i < len(outs); i++ {
-				okRec = proto.Equal(outs[i], urw.WSet[i])
-			}
+			okRec = e1 == nil && e2 == nil && sameInputs(ins, urw.Rset) && sameOutputs(outs, urw.WSet)
 		}
 		if !okRec {
 			add("c10.wset_utxo_record_differs", whole.s()+": after Flush the transient bucket does not record the token inputs / outputs of the sandbox",
@@ -627,6 +817,7 @@ func checkProgram(bw *bworld, prog []op, st *stats) (fs []finding, panicAt int) 
 	st.replays++
 	res2 := execProgram(sb2, prog)
 	st.replayOps += len(res2)
+	refusedSoFar := false // the utxo reader refused a transfer of the first run before this call
 	for i, r2 := range res2 {
 		o := prog[i]
 		bkt, k := int(o.bkt), int(o.key)
@@ -640,6 +831,18 @@ func checkProgram(bw *bworld, prog []op, st *stats) (fs []finding, panicAt int) 
 			add("c10.replay."+opNames[o.kind]+"_panics"+cls, where(i)+": panics when re-run over the read set: "+r2.panicMsg, o.observation(res[i]), "panic: "+r2.panicMsg)
 			return fs, panicAt
 		}
+		if o.kind == opXfer {
+			st.replayXfers++
+			switch {
+			case r2.err:
+				st.replayXferRefused++
+			case !res[i].err && refusedSoFar:
+				st.replayXferAfterRefuse++
+			}
+			if res[i].err && o.amt > 0 {
+				refusedSoFar = true
+			}
+		}
 		if sameResult(res[i], r2) {
 			continue
 		}
@@ -647,6 +850,16 @@ func checkProgram(bw *bworld, prog []op, st *stats) (fs []finding, panicAt int) 
 		rs := refBefore(bw.b, prog, res, i)
 		key := "c10.replay." + opNames[o.kind] + "_differs"
 		switch o.kind {
+		case opXfer:
+			// which transfers fail is part of the result; the class says which
+			// way the replay deviates and whether the utxo reader had refused a
+			// transfer of this execution before (a refusal must leave no trace)
+			if r2.err {
+				key += ".replay_refuses"
+			} else {
+				key += ".replay_accepts"
+			}
+			key += refusalContext(rs, o)
 		case opGet:
 			_, _, src := rs.lookup(bkt, k)
 			got := "not_found"
@@ -719,8 +932,16 @@ func checkProgram(bw *bworld, prog []op, st *stats) (fs []finding, panicAt int) 
 	if !sameStringMap(gotW, gotW2) {
 		add("c10.replay.write_set_differs", whole.s()+": re-running over the read set gives another write set", describeWSet(gotW), describeWSet(gotW2))
 	}
-	if a, b := describeUtxoOuts(urw.WSet), describeUtxoOuts(sb2.UTXORWSet().WSet); a != b {
-		add("c10.replay.utxo_outputs_differ", whole.s()+": re-running over the recorded token inputs gives other token outputs", a, b)
+	urw2 := sb2.UTXORWSet()
+	ctx := ""
+	if len(rf.refused) > 0 {
+		ctx = ".with_refused_transfer"
+	}
+	if !sameInputs(urw.Rset, urw2.Rset) {
+		add("c10.replay.utxo_inputs_differ"+ctx, whole.s()+": re-running over the recorded token inputs selects other token inputs", describeUtxoIns(urw.Rset), describeUtxoIns(urw2.Rset))
+	}
+	if !sameOutputs(urw.WSet, urw2.WSet) {
+		add("c10.replay.utxo_outputs_differ"+ctx, whole.s()+": re-running over the recorded token inputs gives other token outputs", describeUtxoOuts(urw.WSet), describeUtxoOuts(urw2.WSet))
 	}
 	return fs, panicAt
 }
